@@ -9,6 +9,8 @@
 EXTENDS Batch, Json, IOUtils
 
 MaxFaulty == IF "MAXFAULTY" \in DOMAIN IOEnv THEN atoi(IOEnv.MAXFAULTY) ELSE 2
+\* the .luaurc configurations (whose cases cost the driver five times the runs) may be given a smaller bound
+RcMaxFaulty == IF "RCMAXFAULTY" \in DOMAIN IOEnv THEN atoi(IOEnv.RCMAXFAULTY) ELSE MaxFaulty
 
 VARIABLES root, fi, st, out, ff, cfg
 vars == <<root, fi, st, out, ff, cfg>>
@@ -37,7 +39,7 @@ Init ==
 Choose ==
   /\ st = <<>>
   /\ st' \in [E -> States]
-  /\ Cardinality(NotOk(st')) <= MaxFaulty
+  /\ Cardinality(NotOk(st')) <= (IF cfg \in RcCfgs THEN RcMaxFaulty ELSE MaxFaulty)
   \* files outside the input are bystanders: present and healthy (the interesting variation is under the input)
   /\ \A i \in E : ~(IF root = "file" THEN i = fi ELSE IsProperPrefix(InputPath([root |-> root, fi |-> fi]), Src(i))) => st'[i] = "ok"
   /\ \A i \in E : st'[i] \in UnwFault => out = "exdir"
